@@ -13,6 +13,33 @@ CHECKS = {
              'MergeError is required exactly for invalid list indices. Exploration, not proof.',
         note='Trusts PyYAML SafeLoader as the definition of plain content and the fold as the reading of the statement.',
         design='4/C02'),
+    'C01': dict(
+        technique='property-based differential testing (Hypothesis): tagged document vs. PyYAML SafeLoader on its tag-erased twin, two tag placements per skeleton',
+        text='Generated mapping documents (all scalar/key kinds, block/flow, quoting styles) with two independent random placements of every '
+             'merge-control tag and metadata form are built with Config.build and compared (exact types, order) with what PyYAML loads from the '
+             'tag-erased rendering of the same AST. Exploration, not proof.',
+        note='Trusts PyYAML SafeLoader as reference and the renderer (guarded by a third witness: the generator\'s own plain value).',
+        design='4/C01'),
+    'C03': dict(
+        technique='property-based differential testing (Hypothesis): per-leaf (priority, stage) arg-max oracle and pairwise metadata fold over generated stage histories',
+        text='Histories of 2-5 stages writing subsets of a shared skeleton with !force/!weak on leaves, enclosing mappings or the root; the merged '
+             'tree (Builder.build) and the evaluated config must carry, per leaf, the value of the highest-priority / latest writer, and the '
+             'surviving nodes the union of all writers\' metadata with the winner\'s values. The oracle is independent of any merge model.',
+        note='Lists are atomic values; nested differing priority tags on one path are out of the stated domain.',
+        design='4/C03'),
+    'C05': dict(
+        technique='property-based metamorphic testing (Hypothesis): build(D_i) vs build({k..: D_i}) vs build with unrelated sibling content',
+        text='Generated merge sequences over priority/!del/!merge/!new/!notnew tags are built unwrapped, wrapped under a key chain drawn from the '
+             'documents\' own key alphabet, and wrapped with an unrelated sibling sequence; results (or failure classes) must correspond.',
+        note='Relation between runs of the implementation; documented exception for an explicit !del stage root with an empty result.',
+        design='4/C05'),
+    'C15': dict(
+        technique='property-based metamorphic testing (Hypothesis): five relations (determinism, idempotence, empty-neutral, key permutation, flag-neutral) per generated sequence',
+        text='Each generated sequence over priority/!del/!merge tags is rebuilt twice, with the last document repeated, with {} inserted at every '
+             'position, with every mapping\'s keys permuted and with !unsafe/!new markers added on random nodes; plain(Builder.build()) must agree. '
+             'One open known finding (list pre-filter, idempotence only) is attributed by a root-cause probe and reported as KNOWN-FINDING.',
+        note='Relations between runs of the implementation; the known finding is attributed only to idempotence failures in builds where the list pre-filter dropped nodes.',
+        design='4/C15'),
 }
 
 PENDING = {}
